@@ -374,6 +374,10 @@ def make_pool():
         ("series", lambda: Series()), ("record", lambda: Record()), ("table_dot", lambda: Table({"a.b": 1})),
         ("table_intkey", lambda: Table({1: 2})), ("table_complex", lambda: Table({"k": 1j})),
         ("dead_proxy", _dead_proxy), ("live_proxy", _live_proxy),
+        # reference forms of the retry / deep-first-sight histories (see retry_histories, deep_first_sight)
+        ("repaired_nested", lambda: {"a": {"b": [1, {"c": 2}]}}), ("repaired_key", lambda: {"a": {"x": 1}}),
+        ("dyn_userlist", lambda: type("DynUL", (collections.UserList,), {})([1])),
+        ("dyn_userdict", lambda: type("DynUD", (collections.UserDict,), {})({"u": 1})),
         ("live_proxy_list", lambda: _live_proxy_to(lambda: _WeakList([1, 2]))),
         ("live_proxy_plain", lambda: _live_proxy_to(_WeakPlain)),
         ("lazy_dict", lambda: Lazy(lambda: {"z": 1})), ("lazy_list", lambda: Lazy(lambda: [1, 2])),
@@ -503,6 +507,72 @@ def run_probe(kind, value, scratch):
             return {"type": type(b["k"]).__name__, "plain": _canon(b)}
         return guarded(run)
     raise AssertionError(kind)
+
+
+def retry_scenarios():
+    """[(name, build, repair, reference pool value)]: the *same container objects* are offered twice - first in a
+    form that (some) validators reject, then repaired in place; the second outcome must be the one a fresh process
+    gives for the repaired value."""
+    def s1():
+        o = {"a": {"b": [Neither(), {"c": 2}]}}
+        return o, lambda: o["a"]["b"].__setitem__(0, 1)
+
+    def s2():
+        o = {"a": {1: 1}}
+
+        def fix():
+            del o["a"][1]
+            o["a"]["x"] = 1
+        return o, fix
+
+    def s3():
+        o = {"a": {"p.q": 1}}
+
+        def fix():
+            del o["a"]["p.q"]
+            o["a"]["x"] = 1
+        return o, fix
+
+    def s4():  # nothing to repair: an accepted value offered twice
+        o = {"a": {"b": [1, {"c": 2}]}}
+        return o, lambda: None
+
+    def s5():
+        o = {"a": {"b": [1, {"c": {1, 2}}]}}
+        return o, lambda: o["a"]["b"][1].__setitem__("c", 2)
+    return [("bad_leaf", s1, "repaired_nested"), ("bad_key", s2, "repaired_key"), ("dotted_key", s3, "repaired_key"),
+            ("accepted_twice", s4, "repaired_nested"), ("bad_deep_leaf", s5, "repaired_nested")]
+
+
+def deep_first_sight(kind, depth, mapping, scratch, limit=140):
+    """A type that no resolver has seen yet is first met at the bottom of data nested ``depth`` levels deep, with the
+    interpreter's recursion limit lowered to ``limit`` (in a thread of its own, so that the stack depth is the same
+    wherever this is called from). Whatever that first encounter ends in, a small value of the same type must
+    afterwards be treated as in a fresh process. Returns the outcome for the small value."""
+    import threading
+
+    if mapping:
+        T = type("DynUD", (collections.UserDict,), {})
+        small = lambda: T({"u": 1})  # noqa: E731
+    else:
+        T = type("DynUL", (collections.UserList,), {})
+        small = lambda: T([1])  # noqa: E731
+    v = small()
+    for i in range(depth):
+        v = [v] if i % 2 == 0 else {"k": v}
+
+    def first():
+        old = sys.getrecursionlimit()
+        sys.setrecursionlimit(limit)
+        try:
+            run_probe(kind, v, scratch)
+        finally:
+            sys.setrecursionlimit(old)
+
+    t = threading.Thread(target=first)
+    t.start()
+    t.join()
+    return run_probe(kind, small(), scratch)
 
 
 def reference_main():
